@@ -1,0 +1,8 @@
+//go:build !verif
+
+// SPDX-License-Identifier: Apache-2.0
+// Copyright Authors of Cilium
+
+package statedb
+
+func verifPause(point string, who string) {}
